@@ -29,6 +29,12 @@ def _mk(kind, uid):
         return FIXMessage("D", {11: f"dec{uid}", 55: "X"})
     if kind == "grp":
         return FIXMessage("8", {11: f"grp{uid}", 453: [{448: "p1", 447: "D", 452: 1}, {448: "p2", 447: "D", 452: 3}], 55: "Y"})
+    if kind == "ugrp":
+        # legal FIX 4.4 application message whose repeating groups are NOT in the library's group table
+        # (MarketDataRequest: NoMDEntryTypes 267, NoRelatedSym 146)
+        return FIXMessage("V", {262: f"md{uid}", 263: "1", 264: "0", 267: [{269: "0"}, {269: "1"}], 146: [{55: "X"}]})
+    if kind == "boom":
+        return FIXMessage("D", {11: f"boom{uid}", 55: "X"})
     if kind == "hb":
         return FIXMessage(FMsg.HEARTBEAT)
     raise ValueError(kind)
@@ -41,7 +47,11 @@ def run_case(case):
     w = World1(role, S=CFG["S"], T=CFG["T"])
     try:
         c = w.c
-        c.replay_filter = lambda m: not str(m.get(11, "")).startswith("dec")
+        def _filter(m):
+            if str(m.get(11, "")).startswith("boom"):
+                raise RuntimeError("application should_replay callback failed")  # counts as "does not agree to replay"
+            return not str(m.get(11, "")).startswith("dec")
+        c.replay_filter = _filter
         # the journal is shared with another session whose outbound history overlaps in numbers
         from asyncfix.message import MessageDirection
         foreign = w.j.create_or_load("OTHER_T", "OTHER_S")
@@ -112,7 +122,7 @@ def run_case(case):
                     return {"signature": "harness|relogon_failed", "clause": "harness", "detail": {"state": c.connection_state.name}, "replay": {"case": case}}
             else:
                 w.send(_mk(k, uid))
-                note_written({"app": "app", "grp": "app", "pdn": "app", "dec": "declined", "hb": "session"}[k])
+                note_written({"app": "app", "grp": "app", "pdn": "app", "dec": "declined", "hb": "session", "ugrp": "app", "boom": "declined"}[k])
         if awaiting:
             w.advance(1.0)
             w.peer("D", w.peer_seq + 2, [(11, "early")])
@@ -136,6 +146,8 @@ def run_case(case):
 
 
 def req_class(b, e, last):
+    if not isinstance(b, int) or not isinstance(e, int):
+        return "not_numeric_or_missing"
     if b <= 0:
         bc = "begin_nonpositive"
     elif b > last:
@@ -161,8 +173,9 @@ def one_request(w, truth, last, b, e, awaiting, idx, first_class, case, concurre
     skey = session_of(w.c).key
     rows0 = {seq: m for (k_, d, seq, m) in journal_rows(w.j) if d == 1 and k_ == skey}
     foreign0 = [r for r in journal_rows(w.j) if r[0] != skey]
-    valid = 1 <= b <= last and (e == 0 or e >= b)
-    R = last if (e == 0 or e > last) else e
+    numeric = isinstance(b, int) and isinstance(e, int)
+    valid = numeric and 1 <= b <= last and (e == 0 or e >= b)
+    R = (last if (e == 0 or e > last) else e) if numeric else None
     w.take()
     if concurrent:
         # one fixed interleaving: the transport is congested, the reply parks in its first drain(); the application
@@ -177,7 +190,7 @@ def one_request(w, truth, last, b, e, awaiting, idx, first_class, case, concurre
         out = [raw for raw in w.take() if b"\x0111=live\x01" not in raw]
         sent_live = w.writer.out and any(b"\x0111=live\x01" in raw for raw in w.writer.out)
     else:
-        w.peer("2", None, [(7, b), (16, e)])
+        w.peer("2", None, [(t_, v_) for t_, v_ in ((7, b), (16, e)) if v_ is not None])
         out = w.take()
     rc = req_class(b, e, last)
     which = "first" if idx == 0 else "second"
@@ -313,6 +326,17 @@ def cases(quick):
                         for p1 in red:
                             for p2 in red:
                                 out.append((role, slots, awaiting, [p1, p2]))
+    # application messages with repeating groups unknown to the library's table; a should_replay callback that raises
+    for slots in (("app", "ugrp", "app"), ("ugrp", "app", "hb"), ("app", "boom", "app"), ("boom", "app", "grp")):
+        last = 1 + len(slots)
+        for p in [(1, 0), (2, 0), (2, last - 1), (3, 3), (last, 0), (1, 2)]:
+            out.append(("acceptor", slots, False, [p]))
+        out.append(("acceptor", slots, False, [(1, 0), (1, 0)]))
+    # requests whose BeginSeqNo / EndSeqNo are missing or not numbers: invalid, no side effects
+    for slots in (("app", "dec", "app"),):
+        for p in [("x", 0), (1, "x"), (None, 0), (1, None), ("1.5", 0), (1, "")]:
+            for aw in (False, True):
+                out.append(("acceptor", slots, aw, [p]))
     # long ranges: a run of > 1000 unsent numbers between application messages
     for slots in (("app", "jump", "app"), ("app", "jump", "app", "app"), ("jump", "app", "hb")):
         last = 1 + len(slots) - 1 + 1203
